@@ -63,6 +63,14 @@ type verifC19Case struct {
 	// the consumer behind the receiver blocks consumer_delay_us[k % len] microseconds in its k-th call
 	// (a backlog of frames builds up at the receiver and is then consumed in a burst)
 	ConsumerDelayUs []int `json:"consumer_delay_us"`
+	// optional: points of batch j of worker w = points_by_worker[w % len][j % len] (overrides points)
+	PointsByWorker [][]int `json:"points_by_worker"`
+	// optional: number of batches of worker w = batches_by_worker[w % len] (overrides batches)
+	BatchesByWorker []int `json:"batches_by_worker"`
+	// the workers with small batches make their first call while the exporter's writer mutex is held by
+	// the long export of another worker and at least one flusher tick has fallen into that period
+	// (observed with TryLock on the exporter the harness keeps; needs factory=false)
+	LateCallers bool `json:"late_callers"`
 }
 
 type verifC19Batch struct {
@@ -375,12 +383,41 @@ func verifRunC19(c *verifC19Case) (out *verifC19Out) {
 	var mu sync.Mutex
 	var wg sync.WaitGroup
 	samples := []string{}
+	// number of batches of at least 50000 points (see below)
+	var bigReady sync.WaitGroup
+	anyBig := false
+	for range exps {
+		for w := 0; w < c.Workers; w++ {
+			nb := c.Batches
+			if len(c.BatchesByWorker) > 0 {
+				nb = c.BatchesByWorker[w%len(c.BatchesByWorker)]
+			}
+			for b := 0; b < nb; b++ {
+				n := 1
+				if len(c.Points) > 0 {
+					n = c.Points[b%len(c.Points)]
+				}
+				if len(c.PointsByWorker) > 0 {
+					pw := c.PointsByWorker[w%len(c.PointsByWorker)]
+					n = pw[b%len(pw)]
+				}
+				if n >= 50000 && b == 0 {
+					bigReady.Add(1)
+					anyBig = true
+				}
+			}
+		}
+	}
 	for e := range exps {
 		for w := 0; w < c.Workers; w++ {
 			wg.Add(1)
 			go func(e, w int) {
 				defer wg.Done()
-				for b := 0; b < c.Batches; b++ {
+				nb := c.Batches
+				if len(c.BatchesByWorker) > 0 {
+					nb = c.BatchesByWorker[w%len(c.BatchesByWorker)]
+				}
+				for b := 0; b < nb; b++ {
 					if len(c.SleepUs) > 0 {
 						if us := c.SleepUs[(w+b)%len(c.SleepUs)]; us > 0 {
 							time.Sleep(time.Duration(us) * time.Microsecond)
@@ -390,8 +427,35 @@ func verifRunC19(c *verifC19Case) (out *verifC19Out) {
 					if len(c.Points) > 0 {
 						n = c.Points[b%len(c.Points)]
 					}
+					if len(c.PointsByWorker) > 0 {
+						pw := c.PointsByWorker[w%len(c.PointsByWorker)]
+						n = pw[b%len(pw)]
+					}
+					// (large batches take long to build: callers whose pause is meant to fall inside a
+					// long export of another worker wait until that worker has built its batch)
 					md := verifMakeBatch(c.Seed, e, w, b, n)
 					canon := verifCanonPoints(md)
+					if n >= 50000 && b == 0 {
+						bigReady.Done()
+					} else if b == 0 && n < 50000 {
+						bigReady.Wait()
+						if c.LateCallers && anyBig && exps[e].inner != nil {
+							mx := &exps[e].inner.writeMutex
+							deadline := time.Now().Add(20 * time.Second)
+							for time.Now().Before(deadline) {
+								if !mx.TryLock() {
+									break // held: the long export is writing
+								}
+								mx.Unlock()
+								time.Sleep(500 * time.Microsecond)
+							}
+							time.Sleep(time.Duration(120+10*w) * time.Millisecond)
+						} else if len(c.SleepUs) > 0 && anyBig {
+							if us := c.SleepUs[(w+b)%len(c.SleepUs)]; us > 0 {
+								time.Sleep(time.Duration(us) * time.Microsecond)
+							}
+						}
+					}
 					rec := verifC19Batch{Exporter: e, Worker: w, Index: b, Points: verifHashes(canon)}
 					if err := exps[e].exp.ConsumeMetrics(ctx, md); err != nil {
 						rec.Err = err.Error()
